@@ -1,7 +1,7 @@
 #!/bin/bash
 # usage: evalmutant.sh <mutant dir with patch.diff, demo_test.go, meta.json> <check ids...>
 # 1. confirms the mutant in a scratch worktree (suite green with patch; demo fails with, passes without)
-# 2. applies it to /repo, runs the given checks (quick), undoes it.
+# 2. runs the given checks (quick) against that worktree (VX_REPO), then removes it.
 set -u
 M=$1; shift
 W=$(mktemp -d /tmp/mutcheck.XXXX)
@@ -12,19 +12,19 @@ if [ -z "$dir" ]; then dir=$(python3 -c "import json;print(json.load(open('$M/me
 echo "demo dir: $dir"
 export GOFLAGS=-mod=mod GOPROXY=off
 cp "$M/demo_test.go" "$dir/zz_demo_test.go"
-go test -count=1 ./$dir/ >/tmp/mut_nopatch.log 2>&1 && echo "demo WITHOUT patch: pass" || { echo "demo WITHOUT patch: FAIL (bad mutant)"; tail -5 /tmp/mut_nopatch.log; }
+go test -count=1 ./$dir/ >$W.nopatch.log 2>&1 && echo "demo WITHOUT patch: pass" || { echo "demo WITHOUT patch: FAIL (bad mutant)"; tail -5 $W.nopatch.log; }
 git apply "$M/patch.diff" || echo "PATCH DOES NOT APPLY"
-timeout 300 go test -count=1 ./$dir/ >/tmp/mut_patch.log 2>&1 && echo "demo WITH patch: pass (bad mutant)" || echo "demo WITH patch: fail (as intended)"
+timeout 300 go test -count=1 ./$dir/ >$W.patch.log 2>&1 && echo "demo WITH patch: pass (bad mutant)" || echo "demo WITH patch: fail (as intended)"
 rm "$dir/zz_demo_test.go"
 go test -count=1 ./... 2>&1 | grep -v "^ok\|no test files" | head -5; echo "suite with patch: done (lines above = failures)"
-cd /; git -C /repo worktree remove --force "$W"
-# checks on /repo
-git -C /repo apply "$M/patch.diff"
+# checks run on the scratch worktree (VX_REPO), so /repo and other runs are not disturbed
 cd /verif
+E=$(mktemp -d /tmp/mutev.XXXX)
 for c in "$@"; do
-  timeout 1500 ./bin/vx check $c > /tmp/mut_$c.log 2>&1; rc=$?
-  echo "check $c exit=$rc $(grep -c '^VIOLATION' /tmp/mut_$c.log) violation lines; $(grep -E '^C[0-9]+ quick' /tmp/mut_$c.log | sed 's/inputs_covered=[0-9]*//' | cut -c1-40) $(grep -oE 'vacuous=.*' /tmp/mut_$c.log | tail -1)"
-  grep '^VIOLATION' /tmp/mut_$c.log | head -2 | cut -c1-260
+  VX_REPO="$W" VX_EVIDENCE="$E" timeout 1500 ./bin/vx check $c > /tmp/mut_$(basename $M)_$c.log 2>&1; rc=$?
+  L=/tmp/mut_$(basename $M)_$c.log
+  echo "check $c exit=$rc $(grep -c '^VIOLATION' $L) violation lines; $(grep -E '^C[0-9]+ quick' $L | sed 's/inputs_covered=[0-9]*//' | cut -c1-40) $(grep -oE 'vacuous=.*' $L | tail -1)"
+  grep '^VIOLATION' $L | head -2 | cut -c1-260
 done
-git -C /repo checkout -- .
-git -C /repo status --short | head -3
+rm -rf "$E"
+cd /; git -C /repo worktree remove --force "$W"; rm -f $W.nopatch.log $W.patch.log
